@@ -3,7 +3,7 @@ import itertools
 import collections
 from .. import model, sweep, lcfrs
 from ..runner import Result
-from ..bridge import build, quiet, build_via_export, extract, monitor
+from ..bridge import T, build, quiet, build_via_export, extract, monitor
 from ..runner import scratch
 
 from trees import grammar, grammaranalysis, transform
@@ -32,7 +32,10 @@ def plan(tier, seed):
                 'non-trivial = distinct treebanks with a discontinuous node or a count > 1' % (dev, pool_n),
         'bound': ', '.join('n=%d:u<=%d' % s for s in specs) + '; label deviations <= %d' % dev,
         'exhaustive': True,
-        'assumptions': ['labels carry no trailing digit (the vertical context appends the fan-out)'],
+        'assumptions': ['labels carry no trailing digit (the vertical context appends the fan-out)',
+                        'each single-tree treebank is extracted three ways: API-built, API-built with reversed child lists, and '
+                        'written as an export file (tokens #1, #12, #1234, which are not node references), read back, made '
+                        'continuous and extracted; the tree read must hold exactly the tokens of the file'],
     }
 
 
@@ -67,9 +70,17 @@ def check_bank(mtjs, order=None):
     try:
         if order == 'export+raise':
             # trees as users have them: read by the export reader, made continuous in place, then extracted
+            # (with tokens that resemble, but are not, export node references)
             live = []
+            remap = {'w0': '#1', 'w1': '#12', 'w': '#1234'}
             for mt in mts:
-                t = build_via_export(model.MT(mt.sid, mt.toks, ('VROOT', '--', mt.root[2])), scratch())
+                toks = [dict(tk, word=remap.get(tk['word'], tk['word'])) for tk in mt.toks]
+                t = build_via_export(model.MT(mt.sid, toks, ('VROOT', '--', mt.root[2])), scratch())
+                read = [(x.data['word'], x.data['label']) for x in T.terminals(t)]
+                if read != [(tk['word'], tk['pos']) for tk in toks]:
+                    bad('file-tokens', 'the export file holds the tokens %r, the tree read from it %r'
+                        % ([(tk['word'], tk['pos']) for tk in toks], read))
+                    return out, False
                 for name in ('root_attach', 'negra_mark_heads', 'boyd_split', 'raising'):
                     t = getattr(transform, name)(t)
                 live.append(t)
